@@ -104,6 +104,12 @@ func runC01(x *mc.X) {
 		threeStep = x.Choose("three-step", 2) == 1
 	}
 
+	// the protocol version of the origin's response says nothing about its age or lifetime
+	proto := ""
+	if x.Tier() == "thorough" || (r.status == 200 && r.delay == 0 && r.swr == "" && reqDir == "") {
+		proto = mc.Pick(x, "resp.protocol", []string{"", "HTTP/2.0", "HTTP/1.0"})
+	}
+
 	w := world.New(world.Opt{})
 	defer w.Close()
 	start := time.Now()
@@ -111,6 +117,7 @@ func runC01(x *mc.X) {
 		r.expires = "+0"
 	}
 	spec := r.spec(start)
+	spec.Proto = proto
 	answer(w, spec)
 	o1 := get(w, U)
 	logObs(x, fmt.Sprintf("GET (origin answers %d %v)", spec.Status, spec.H), o1)
